@@ -79,13 +79,8 @@ func c6Check(c *Ctx, lv map[string]int64) {
 		return
 	}
 	// entry level is the parameter
-	stored := false
-	AllInstrs(fn, func(i ssa.Instruction) {
-		if st, ok := i.(*ssa.Store); ok && Desc(st.Addr) == "ent.Level" && st.Val == ssa.Value(lvl) {
-			stored = true
-		}
-	})
-	c.Check(stored, "R6.1", name, "entry-level-is-param", coreCheck.Pos(), "the entry's Level is the lvl parameter")
+	ef, efOK := entryAtCoreCheck(c)
+	c.Check(efOK && ef["Level"] == lvl.Name(), "R6.1", name, "entry-level-is-param", coreCheck.Pos(), "on every path the entry handed to Core.Check has the lvl parameter as its Level (%v)", ef)
 	// early returns (not dominated by Core.Check)
 	lim := itoa(int(lv["DPanic"]))
 	for k, r := range Returns(fn) {
@@ -1201,4 +1196,41 @@ func c6CrashSync(c *Ctx, rule string) {
 		bad = append(bad[:3:3], "… "+itoa(len(bad)-3)+" more")
 	}
 	c.Check(len(bad) == 0 && n >= 14, rule, fn.String(), "crash-sync", fn.Pos(), "over %d paths (levels -1..5, encoder and sink outcomes forked): nil is returned exactly when neither reported an error, and an accepted entry above ErrorLevel is synced before Write returns: %v", n, bad)
+}
+
+// entryAtCoreCheck: what the fields of the entry that Logger.check hands to Core.Check hold, by path exploration
+// (helpers that build the entry explored inline); ok only when every path that reaches Core.Check agrees.
+func entryAtCoreCheck(c *Ctx) (map[string]string, bool) {
+	fn := c.Method(ZapPath, "Logger", "check")
+	if fn == nil {
+		return nil, false
+	}
+	got := map[string]string{}
+	agree, n := true, 0
+	_, trunc := ConcPaths(fn, ConcCfg{
+		Prune: false, MaxStates: 200000,
+		Event: func(in ssa.Instruction, st *ConcState) string {
+			x, ok := in.(*ssa.Call)
+			if !ok || !IsCallTo(x, "(go.uber.org/zap/zapcore.Core).Check") || len(x.Call.Args) < 1 {
+				return ""
+			}
+			n++
+			for _, f := range []string{"Level", "LoggerName", "Message", "Time"} {
+				k, isInt, v := st.FieldOf(x.Call.Args[0], f)
+				d := ""
+				switch {
+				case isInt:
+					d = itoa(int(k))
+				case v != nil:
+					d = st.Desc(v)
+				}
+				if prev, has := got[f]; has && prev != d {
+					agree = false
+				}
+				got[f] = d
+			}
+			return ""
+		},
+	})
+	return got, !trunc && agree && n > 0
 }
